@@ -403,6 +403,10 @@ func (f Slice) startEndStep(size int) (start, end, step int) {
 			return
 		}
 	}
+	if size <= 0 {
+		// Nothing to select from, make the range empty for either direction.
+		return 0, 0, step
+	}
 	if start < 0 {
 		start = size + start
 	} else if size <= start {
